@@ -78,6 +78,7 @@ func TestCheck(t *testing.T) {
 	r.Assume("a subnet can be in back-off only if `count` of its over-limit events (counting everything that may have been one) can lie within one window of max(period, duration)")
 	r.Assume("back-off is certain only while less than `duration` has passed since the first over-limit event and all `count` events fell within `period`; " +
 		"it is certainly over once `duration`+`period` have passed since the last over-limit event")
+	r.Assume("every unit of a large response is an event of the subnet's window; a unit that is certainly beyond the limit (and not swallowed by a back-off) is an over-limit event for the back-off count")
 	r.Assume("a response of wire length S counts floor(S/estimate)..ceil(S/estimate) extra events when S >= estimate and none when S < estimate")
 	r.Assume("timestamps are after 1970 (RequestCounter treats UnixNano()<=0 as an empty slot)")
 
@@ -91,6 +92,7 @@ func TestCheck(t *testing.T) {
 	layer2Expiry(r)
 	layer2Backoff(r)
 	layer2SpreadHits(r)
+	layer2LargeResp(r)
 	layer2Concurrent(r)
 
 	layer3Profile(r)
@@ -115,6 +117,9 @@ func TestCheck(t *testing.T) {
 	r.Require("l2_backoff_ended_pass", 5)
 	r.Require("l2_below_count_pass", 5)
 	r.Require("l2_spread_hits_pass", 8)
+	r.Require("l2_large_resp_backoff_drop", 8)
+	r.Require("l2_large_resp_below_count_pass", 6)
+	r.Require("l2_large_resp_window_drop", 6)
 	r.Require("l3_profile_decided", 20)
 	r.Require("l3_stack_profile_instead_of_global", 5)
 	r.Require("l3_stack_dropped_silently", 20)
@@ -456,6 +461,10 @@ type span struct{ B, A int64 } // wall-clock ns before / after the call
 type mEvent struct {
 	span
 	opt bool // may or may not have been counted
+	// resp: in keyModel.events, a unit of a large response that was certainly
+	// beyond the limit when it was counted; in keyModel.hits, an over-limit
+	// event that is a unit of a large response.
+	resp bool
 }
 
 type keyModel struct {
@@ -591,6 +600,28 @@ func (m *bmon) allowed(ip netip.Addr) bool {
 	return false
 }
 
+// loWithoutRespOver is the certain window count without the units of large
+// responses that were beyond the limit when they were counted.
+func (ks *keyModel) loWithoutRespOver(a, ivl int64) (lo int) {
+	for _, e := range ks.events {
+		if !e.opt && !e.resp && a-e.B < ivl-eps {
+			lo++
+		}
+	}
+	return lo
+}
+
+// sureHitsWithoutResp is the number of certain over-limit events that are not
+// units of large responses.
+func (ks *keyModel) sureHitsWithoutResp() (k uint) {
+	for _, h := range ks.hits {
+		if !h.opt && !h.resp {
+			k++
+		}
+	}
+	return k
+}
+
 func (ks *keyModel) window(b, a, ivl int64) (lo, hi int) {
 	for _, e := range ks.events {
 		if !e.opt && a-e.B < ivl-eps {
@@ -693,7 +724,7 @@ func (m *bmon) query(ip netip.Addr, qt uint16) (dropped bool) {
 			m.nDrop++
 		}
 		ks := m.key(k)
-		ks.events = append(ks.events, mEvent{span{b, a}, true})
+		ks.events = append(ks.events, mEvent{span{b, a}, true, false})
 		return drop
 	}
 	if isAllowed {
@@ -709,7 +740,7 @@ func (m *bmon) query(ip netip.Addr, qt uint16) (dropped bool) {
 			m.viol("allowlist:flag-missing", "an allow-listed client was not reported as allow-listed", nil)
 		}
 		ks := m.key(k)
-		ks.events = append(ks.events, mEvent{span{b, a}, true})
+		ks.events = append(ks.events, mEvent{span{b, a}, true, false})
 		return drop
 	}
 	if allow {
@@ -733,17 +764,30 @@ func (m *bmon) query(ip netip.Addr, qt uint16) (dropped bool) {
 			m.r.Bucket("l2_decided_must_drop", 1)
 			if certainBO && hi < n {
 				m.r.Bucket("l2_backoff_certain_drop", 1)
+				if ks.sureHitsWithoutResp() < m.cfg.Count {
+					m.r.Bucket("l2_large_resp_backoff_drop", 1)
+				}
+			}
+			if !certainBO && ks.loWithoutRespOver(a, ivl) < n {
+				m.r.Bucket("l2_large_resp_window_drop", 1)
 			}
 			break
 		}
 		extra := map[string]any{"limit": n, "certainly_in_window": lo, "possibly_in_window": hi, "certainly_in_backoff": certainBO, "recent_over_limit_events": recent}
 		switch {
+		case lo < n && ks.sureHitsWithoutResp() < m.cfg.Count:
+			m.viol("backoff:large-response-over-limit-units-not-counted-as-hits",
+				"a subnet was let through although the units of a large response beyond the limit (a response of k estimates counts as k events) make up `count` over-limit events within the period", extra)
 		case lo < n:
 			m.viol("backoff:not-in-backoff-after-count-hits", "a subnet that exceeded the limit `count` times within the period was let through during the back-off duration", extra)
 		case ks.first != nil && a-ks.first.B >= int64(m.cfg.Period)-eps:
 			extra["since_first_counted_event_of_subnet_max"] = time.Duration(a - ks.first.B).String()
 			m.viol("backoff:window-forgotten-on-counter-expiry",
 				"a query passed although its subnet already had `limit` events within the interval; the subnet's first counted event is at least backoff_period old (per-subnet counter entry expired and the window was forgotten)", extra)
+		case ks.loWithoutRespOver(a, ivl) < n:
+			extra["certainly_in_window_without_over_limit_response_units"] = ks.loWithoutRespOver(a, ivl)
+			m.viol("backoff:large-response-units-not-counted-after-limit",
+				"a query passed although its subnet has `limit` or more events within the interval once every unit of a large response is counted (also the units beyond the limit)", extra)
 		case lo > n:
 			m.viol("backoff:pass-with-more-than-n-events-in-window", "a query passed although its subnet had more than `limit` events within the interval", extra)
 		default:
@@ -777,13 +821,13 @@ func (m *bmon) query(ip netip.Addr, qt uint16) (dropped bool) {
 		m.nAmbig++
 		m.r.Bucket("l2_ambiguous", 1)
 	}
-	ev := mEvent{span{b, a}, drop && possibleBO}
+	ev := mEvent{span{b, a}, drop && possibleBO, false}
 	ks.events = append(ks.events, ev)
 	if ks.first == nil && !(drop && possibleBO) {
 		ks.first = &span{b, a}
 	}
 	if drop {
-		ks.hits = append(ks.hits, mEvent{span{b, a}, possibleBO})
+		ks.hits = append(ks.hits, mEvent{span{b, a}, possibleBO, false})
 	}
 	return drop
 }
@@ -840,11 +884,14 @@ func (m *bmon) countResp(ip netip.Addr, size int) {
 	for j := 0; j < kmax; j++ {
 		lo, hi := ks.window(b, a, ivl)
 		_, possibleBO, _ := ks.backoff(b, a, m.cfg)
-		_ = lo
+		// A unit that certainly exists (j < kmin), is certainly beyond the limit
+		// (lo >= n) and cannot be swallowed by a back-off (not possibleBO) is an
+		// over-limit event of the subnet; otherwise it only may be one.
+		opt := allOpt || possibleBO || j >= kmin
 		if hi >= n {
-			ks.hits = append(ks.hits, mEvent{span{b, a}, true})
+			ks.hits = append(ks.hits, mEvent{span{b, a}, opt || lo < n, true})
 		}
-		ks.events = append(ks.events, mEvent{span{b, a}, allOpt || possibleBO || j >= kmin})
+		ks.events = append(ks.events, mEvent{span{b, a}, opt, lo >= n})
 		m.r.Bucket("l2_countresp_events", 1)
 	}
 	if kmax > 0 && ks.first == nil && !allOpt {
@@ -1346,6 +1393,80 @@ func spreadHitsCase(r *vkit.Run, i int) {
 	m.finish(fmt.Sprintf("L2spread/n%d/c%d/w%s/shape%d/v6=%v", n, cnt, w, i%4, v6))
 }
 
+// ---- family: large responses: every unit counts, also beyond the limit
+
+func layer2LargeResp(r *vkit.Run) {
+	cases := r.N(48, 320)
+	parallel(cases, 24, func(i int) { guard(r, "backoff-large-response", i, func() { largeRespCase(r, i) }) })
+}
+
+func largeRespCase(r *vkit.Run, i int) {
+	g := r.Rand("l2largeresp", i)
+	est := uint64(100)
+	v6 := g.IntN(3) == 0
+	a, by := rand4(g), rand6(g)
+	if v6 {
+		a, by = rand6(g), rand4(g)
+	}
+	switch shape := i % 3; shape {
+	case 0, 1:
+		// (a) hits: `already` small events, one response of k estimates, the
+		// window slides out (interval short, period/duration 1h): in back-off
+		// iff the units beyond the limit make up `count` over-limit events.
+		n := uint(1 + g.IntN(3))
+		cnt := uint(2 + g.IntN(3))
+		ivl := 40 * time.Millisecond
+		c := bcfg{N4: n, N6: n, I4: ivl, I6: ivl, Period: hour, Duration: hour, K4: 24, K6: 48, Count: cnt, Est: est}
+		already := g.IntN(int(n))
+		k := int(n) - already + int(cnt) + g.IntN(4) // over-limit units: k-(n-already) >= cnt
+		size := k*int(est) + int(est)/3
+		if shape == 1 {
+			// one over-limit unit too few, exact size (no tolerance unit): served
+			k = int(n) - already + int(cnt) - 1
+			size = k * int(est)
+		}
+		m := newMon(r, "large-response/hits", i, c)
+		for j := 0; j < already; j++ {
+			m.query(a, dns.TypeA)
+		}
+		m.countResp(a, size)
+		m.sleep(3 * ivl)
+		for j := 0; j < int(n); j++ {
+			m.query(a, dns.TypeA)
+			if shape == 1 && m.last.mustPass && !m.last.drop {
+				r.Bucket("l2_large_resp_below_count_pass", 1)
+			}
+		}
+		m.query(by, dns.TypeA)
+		if i < 2 {
+			r.Sample(map[string]any{"layer": 2, "family": "large-response/hits", "config": c.witness(), "ops": m.trace})
+		}
+		m.finish(fmt.Sprintf("L2largeresp/hits%d/n%d/c%d/already%d/k%d/v6=%v", shape, n, cnt, already, k, v6))
+	default:
+		// (b) window: s small events at t0, a response of k >= 3n estimates at
+		// t0+0.5 I, the small events age out, a query at t0+1.2 I still sees
+		// the k units inside the interval: dropped.
+		n := uint(2 + g.IntN(3))
+		ivl := 200 * time.Millisecond
+		c := bcfg{N4: n, N6: n, I4: ivl, I6: ivl, Period: hour, Duration: hour, K4: 24, K6: 48, Count: noBackoff, Est: est}
+		small := 2 + g.IntN(int(n)-1)
+		k := 3*int(n) + g.IntN(4)
+		m := newMon(r, "large-response/window", i, c)
+		for j := 0; j < small; j++ {
+			m.query(a, dns.TypeA)
+		}
+		m.sleep(ivl / 2)
+		m.countResp(a, k*int(est)+int(est)/3)
+		m.sleep(ivl * 7 / 10)
+		m.query(a, dns.TypeA)
+		m.query(by, dns.TypeA)
+		if i == 2 {
+			r.Sample(map[string]any{"layer": 2, "family": "large-response/window", "config": c.witness(), "ops": m.trace})
+		}
+		m.finish(fmt.Sprintf("L2largeresp/window/n%d/small%d/k%d/v6=%v", n, small, k, v6))
+	}
+}
+
 // ---- family: concurrent queries to one Backoff (race detector + totals)
 
 func layer2Concurrent(r *vkit.Run) {
@@ -1508,7 +1629,7 @@ func profileCase(r *vkit.Run, i int) {
 		default:
 			r.Bucket("l3_profile_ambiguous", 1)
 		}
-		ks.events = append(ks.events, mEvent{span{b, a}, false})
+		ks.events = append(ks.events, mEvent{span{b, a}, false, false})
 	}
 	for round := 0; round < 2; round++ {
 		for j := 0; j < int(rps)+2; j++ {
@@ -1531,7 +1652,7 @@ func profileCase(r *vkit.Run, i int) {
 				l.CountResponses(ctxBG, resp, in4)
 				a := now()
 				for j := 0; j < k; j++ {
-					ks.events = append(ks.events, mEvent{span{b, a}, false})
+					ks.events = append(ks.events, mEvent{span{b, a}, false, false})
 				}
 				trace = append(trace, traceRec{Op: fmt.Sprintf("count_response(%d events)", k), Size: wire})
 			} else {
